@@ -272,3 +272,18 @@ def setup():
         build_driver()
         build_harness()
         return {"translator": rep, "wall_s": round(time.time() - t0, 1)}
+
+
+def coqchk(module, timeout=1800):
+    """re-checks the compiled property module and everything it depends on with the independent checker;
+    returns (ok, report): ok iff no axiom, no type-in-type, no unsafe fixpoint, no assumed positivity"""
+    p = run(["coqchk", "-Q", os.path.join(COQ, "theories"), "PasfmtVerif", "-o", "-silent", "PasfmtVerif." + module],
+            cwd=COQ, timeout=timeout, check=False, stage="coqchk")
+    out = p.stdout
+    fields = {}
+    for key in ("Axioms", "Constants/Inductives relying on type-in-type", "Constants/Inductives relying on unsafe (co)fixpoints",
+                "Inductives whose positivity is assumed"):
+        m = re.search(r"\* " + re.escape(key) + r":\s*(.*?)(?=\n\s*\n|\n\* |\Z)", out, re.S)
+        fields[key] = " ".join(m.group(1).split()) if m else "<missing>"
+    ok = p.returncode == 0 and all(v == "<none>" for v in fields.values())
+    return ok, {"rc": p.returncode, "report": fields, "tail": out[-600:] if not ok else ""}
